@@ -659,13 +659,15 @@ def _wire_name(k) -> bytes:
 def run(ctx) -> None:
     _random.seed(f'C13-global-{ctx.seed}')      # ObjectId.random() uses the global PRNG
     ctx.rule = ('mailboxes: 0-10 generated messages (headers From/To/Cc/Bcc/Subject/Date/X-*, folded, '
-                'RFC 2047, duplicates, empty; text, html, multipart, message/rfc822, binary bodies), '
+                'RFC 2047, repeated, empty; text, html, multipart, message/rfc822, binary bodies), '
                 'APPEND flags/keywords, internal dates at 5 times of day x 7 zones over 8 days, '
-                'STOREs by two sessions, another session expunging 1-3 messages in 60% of the boxes; '
-                'programs: 1-3 top-level keys of nesting depth 0-6 over every key, strings drawn from '
-                'the mailbox text with random case; 24 SEARCH + 1 UID SEARCH on the view with hidden '
-                'expunged messages, then 8 programs as SEARCH and UID SEARCH and >=4 law groups on the '
-                'synchronised view; non-trivial = non-empty result; distinct = by wire form')
+                'STOREs by two sessions, another session expunging 1-3 messages in 60% of the boxes and '
+                'one more message in up to 2 further rounds; programs: 1-3 top-level keys of nesting '
+                'depth 0-6 over every key (12% multi-set programs for the pre-filter), strings drawn '
+                'from the mailbox text with random case; per hidden-expunged view 36 (later rounds 6) '
+                'SEARCH + one SEARCH/UID SEARCH twin pair, then 12 programs as SEARCH and UID SEARCH '
+                'and >=6 law groups on the synchronised view; dict backend and a smaller maildir run; '
+                'non-trivial = non-empty result; distinct = by wire form')
     ctx.assumptions += [
         'decoded header values, the parsed Date: header and the MIME part split are oracle data: the '
         'model receives them from pymap.mime (stdlib email.headerregistry) applied to the probed octets',
@@ -673,7 +675,10 @@ def run(ctx) -> None:
         'BODY/TEXT: the RFC leaves open which octets of a multipart body are searched; the monitor '
         'requires text-part payloads (and, for TEXT, the message header) and allows any octet of the '
         'body (resp. message)',
-        'dict backend only; CPython re/str/bytes are the semantics of the implementation side',
+        'a probed message of 0 octets is a message whose content the backend no longer holds '
+        '(expunged maildir file): the record then has no headers, no parts, no sent date',
+        'dict backend and a smaller maildir run; CPython re/str/bytes are the semantics of the '
+        'implementation side',
     ]
     ctx.check_proofs(['Search/SearchCheck'])
     section_strings(ctx)
